@@ -1,10 +1,14 @@
-"""C01  TCP byte-stream integrity and exact send accounting (plain TCP part; the TLS part is served by C18's harness)."""
-from props import sockgen
+"""C01  TCP byte-stream integrity and exact send accounting (plain TCP through scen/sockops.cpp, TLS through the C18 harness)."""
+from props import sockgen, c18
 
 ID = "C01"
 HARNESSES = {
     "sockops": dict(sources=sockgen.SRC, flavour="asan", mode="C01", timeout=30),
     "default": dict(name="sockops", sources=sockgen.SRC, flavour="asan", mode="C01", timeout=30),
+    # "with or without TLS": synchronous TLS pairs through C18's harness and driver (real OpenSSL; byte-stream integrity
+    # and send accounting are clauses of that spec: received = prefix of what the peer's Send calls reported, complete at
+    # the end, no failure on a healthy connection), with multi-record payloads and kernel short writes inside TLS records
+    "tls": dict(c18.HARNESSES["tls"]),
 }
 RULE = ("connected TCP pairs over loopback (IPv4/IPv6, basic/buffered, library side = connector or accepted side, small and "
         "default SO_SNDBUF so that real short writes occur) against a raw peer that drains concurrently; sequences of "
@@ -15,7 +19,7 @@ RULE = ("connected TCP pairs over loopback (IPv4/IPv6, basic/buffered, library s
 ASSUMPTIONS = [
     "A-TCP: a connected pair is a lossless FIFO per direction; recv returns 0 only after all data sent before the close",
     "the kernel accepts at most len bytes per send (script well-formedness)",
-    "TLS sockets: covered by the C18 harness (same accounting predicate), not here",
+    "TLS sockets: run through the C18 harness and driver (A-SSL: OpenSSL honours the SSL_write retry contract)",
 ]
 TRUSTED = ["tools/cxx2lean_eff.py stage 3 (DESIGN.md 0.7.2): StepTodos over the abstract deque/task interface Gen.TodoWorld (front()->when, pop_front after move, task->what(), empty() recognised by canonical text + provenance of the locals); Model/GenTodoWorld.lean reads the ToDo model as that interface; string_view = cursor + immutable end",
            "tools/cxx2lean_eff.py (stage 2, DESIGN.md 0.7.1): world boundary (DoPoll, Interrupted, Clock::now, ::send, ::recv, SocketError opaque; handles dropped), C++ evaluation order, pointer = offset, string_view = (offset, length), objects = fields; Model/GenWorld.lean reads the model answers as C results",
@@ -31,6 +35,8 @@ EXHAUSTIVE = {}
 
 
 def nontrivial(ops, tags):
+    if any(t.startswith("pair.tls") for t in tags):
+        return True
     return any(t in tags for t in ("short-write", "recv.none", "recv.throw", "send.throw", "eintr"))
 
 
@@ -42,6 +48,18 @@ def gen(rng, tier):
             cases.append(("sockops", "s%d" % k, sockgen.c01_case(rng)))
         else:
             cases.append(("sockops", "u%d" % k, sockgen.udp_case(rng)))
+    # TLS slice: basic/buffered pairs, all timeout modes, payloads of several TLS records, the kernel accepting only
+    # part of a record (wsegc/wsegs cap every send() of the client/server), tiny socket buffers
+    kinds = ["basic", "buffered"]
+    for k in range(36 if tier == "quick" else 1200):
+        cli, srv = rng.choice(kinds), rng.choice(kinds)
+        ct, st = rng.choice([-1, 0, 50]), rng.choice([-1, 0, 50])
+        style = "poll" if (ct >= 0 or st >= 0) and rng.random() < 0.5 else "seq"
+        extra = rng.choice(["wsegc=1000 wsegs=333", "wsegc=5000", "wsegs=700", "wsegc=16000 wsegs=16000", "bufs=8192", ""])
+        ops = c18.case_ops(cli, srv, ct, st, "s", rng.choice("sr"), style, rng.choice([0, 0, 7, 100]), rng.randrange(10**6),
+                           rng.choice([3000, 20000, 40000]), rng.choice([1, 100, 20000]), extra=extra)
+        if ops:
+            cases.append(("tls", "tls%d" % k, ops))
     return cases
 
 
